@@ -18,7 +18,8 @@ from .c02 import runs_are_sequential
 ID = "C06"
 RULE = (
     "Hypothesis: 1-D (+ optional batch dim) arrays over the tie-rich alphabet {0,1,1,2,NaN} (ints: {0,1,1,2}), ties and "
-    "NaNs placed on both sides of drawn chunk borders, 1-4 interleaved groups, chunkings incl. single chunk and all "
+    "NaNs placed on both sides of drawn chunk borders, 1-4 interleaved groups (one third of the cases: 9-22 blocks of size "
+    "1-3 and up to 8 groups, reaching the planner's cohort-merging branch and multi-level trees), chunkings incl. single chunk and all "
     "size-1, method in {None, map-reduce, cohorts} (+blockwise for first/last where accepted), split_every in "
     "{2,3,default}; plus exhaustive small scope (all sequences of length <=5 (thorough 6) over {0,1,NaN} x all "
     "chunkings x 3 label patterns). Oracle: reference = index in the WHOLE array of the first occurrence of the "
@@ -35,8 +36,15 @@ ASSUMPTIONS = ["first/last on chunked input are only generated for plans flox do
 def cases(draw, tier="quick"):
     func = draw(st.sampled_from(FUNCS))
     dt = draw(st.sampled_from(["<f8", "<f8", "<f8", "<f4", "<i8", "|i1"]))
-    n = draw(st.integers(2, 20))
-    chunks = gen.draw_chunks(draw, n, max_blocks=12)
+    big = draw(st.integers(0, 2)) == 0
+    if big:
+        # many blocks (>= 9) and many groups: reaches the cohort-merging branch of the planner and multi-level trees
+        nblk = draw(st.integers(9, 22))
+        chunks = [draw(st.sampled_from([1, 2, 2, 2, 3])) for _ in range(nblk)]
+        n = sum(chunks)
+    else:
+        n = draw(st.integers(2, 20))
+        chunks = gen.draw_chunks(draw, n, max_blocks=12)
     alpha = [0.0, 1.0, 1.0, 2.0] if "f" in dt else [0, 1, 1, 2]
     vals = draw(st.lists(st.sampled_from(alpha), min_size=n, max_size=n))
     if "f" in dt:
@@ -54,8 +62,8 @@ def cases(draw, tier="quick"):
     if batch:
         vals = vals + draw(st.lists(st.sampled_from(alpha), min_size=n, max_size=n))
     lab = gen.draw_labels(
-        draw, n, kinds=["int", "int", "float", "str"], max_groups=4,
-        styles=["random", "periodic", "periodic", "runs", "constant", "blocks"],
+        draw, n, kinds=["int", "int", "float", "str"], max_groups=8 if big else 4,
+        styles=["random", "periodic", "periodic", "runs", "constant", "blocks"] + (["blocks", "random"] if big else []),
     )  # fmt: skip
     case = {"arr": {"dt": dt, "sh": batch + [n], "v": vals}, "by": lab["spec"], "func": func}
     case["engine"] = draw(st.sampled_from(["numpy", "numpy", None, "numbagg"]))
